@@ -44,6 +44,12 @@ CLAIMED.update({
             "Assumed: axiom_mj_stable, axiom_mm_stable (listed in evidence.assumptions). "),
 })
 
+CLAIMED.update({
+    "C17": ("other", "BOUNDED stand-in (buffer length <= 8), not a proof: Kani inductive step on the real push / data / count / is_exhaustive with arbitrary stale buffer contents + a structural check that both entry points are the plain delegation to one search generic in its list (parametricity meta-argument, stated not machine-checked) + a bounded public-API comparison of find_n against find for buffer lengths 0..=k+2.", "5/C17",
+            "Bounded in buffer length; unique/earliest/latest are compared only by the bounded concrete probe. Trusted: Kani 0.68 / CBMC 6.11, the parametricity argument. ",
+            "Kani/CBMC bounded inductive step on the real data-structure operations + structural shape check (bounded stand-in for a contract proof)"),
+})
+
 NA = {
     "C05": "find_date_time is outside Verus's subset (FnMut closure with captured cache, iterator adapters, impl Trait) and every bounded Kani formulation probed ran out of time/memory (DESIGN.md section 5 and 9); its ingredients are proved under C02/C03/C04/C12/C14",
     "C06": "same function as C05; not decidable with the available back ends",
